@@ -15,8 +15,8 @@ raw stream - what the properties C02 / C12 / C14 are proved about):
                          outcome, same writer state, same sink contents and position - for every chunking of a raw
                          stream that is not longer than the source entry's `compressed_size` (the raw reader is
                          an `io::Take` of exactly that limit), from every state that satisfies the writer
-                         invariant.  This is where the `large_file` decision matters: `compressed_size ≤ 4 GiB - 1`
-                         keeps the copy below the limit, `compressed_size > 4 GiB - 1` makes the entry large.
+                         invariant.  This is where the `large_file` decision matters: `compressed_size < 4 GiB - 1`
+                         keeps the copy below the limit, `compressed_size ≥ 4 GiB - 1` makes the entry large.
 NOT covered: an injected sink fault in the middle of a multi-chunk copy (the chunked copy leaves a prefix of the
 stream in the sink and in the statistics, the one-write model nothing) - the fault theorems of C11 speak about
 `rawCopy`, i.e. about copies of at most one chunk.
@@ -179,16 +179,16 @@ theorem rawCopy_fits (src : FileData) (n : Nat) (hlen : n ≤ src.compressedSize
     n ≤ 0xFFFFFFFF ∨ (rawCopyOptions src).largeFile = true := by
   have et : ZIP64_BYTES_THR.toNat = 4294967295 := by decide
   by_cases hbig : (if src.compressedSize ≥ src.uncompressedSize then src.compressedSize
-      else src.uncompressedSize) > ZIP64_BYTES_THR
+      else src.uncompressedSize) ≥ ZIP64_BYTES_THR
   · right
     simp only [rawCopyOptions, hbig, decide_true]
   · left
     by_cases hge : src.compressedSize ≥ src.uncompressedSize
     · rw [if_pos hge] at hbig
-      simp only [gt_iff_lt, UInt64.lt_iff_toNat_lt, et, Nat.not_lt] at hbig
+      simp only [ge_iff_le, UInt64.le_iff_toNat_le, et, Nat.not_le] at hbig
       omega
     · rw [if_neg hge] at hbig
-      simp only [gt_iff_lt, UInt64.lt_iff_toNat_lt, et, Nat.not_lt, ge_iff_le, UInt64.le_iff_toNat_le] at hbig hge
+      simp only [ge_iff_le, UInt64.le_iff_toNat_le, et, Nat.not_le] at hbig hge
       omega
 
 /-- **The chunking of `io::copy` is invisible on a fault-free sink.**  From every state that satisfies the writer
